@@ -174,6 +174,34 @@ var prop = h.Define(P, "glob", draw, run)
 
 func TestGlob(t *testing.T) { prop.Check(t) }
 
+// TestGlobLongRuns: a wildcard followed by a long literal run against long,
+// self-overlapping strings (the expensive case of any backtracking matcher):
+// the answer must still be the language's, whatever it costs.
+func TestGlobLongRuns(t *testing.T) {
+	ks := []int{1, 8, 17, 64, 400}
+	ns := []int{10, 40, 60, 200, 1000, 4000}
+	if h.Thorough() {
+		ks = append(ks, 1500)
+		ns = append(ns, 20000)
+	}
+	rep := strings.Repeat
+	for _, k := range ks {
+		for _, n := range ns {
+			for _, c := range []Case{
+				{Pat: "*" + rep("a", k) + "b", Str: rep("a", n) + "b"},
+				{Pat: "*" + rep("a", k) + "b", Str: rep("a", n)},
+				{Pat: "*" + rep("a", k) + "b*", Str: rep("a", n) + "bb" + rep("a", 5)},
+				{Pat: rep("a", 3) + "*" + rep("ab", k/2+1) + "c", Str: rep("a", 3) + rep("ab", n/2) + "c"},
+				{Pat: "*" + rep("a", k) + `\*\\`, Str: rep("a", n) + `*\`},
+				{Pat: "*" + rep("a", k) + `\*`, Str: rep("a", n) + "x"},
+				{Pat: rep("*a", min(k, 40)) + "b", Str: rep("a", n) + "b"},
+			} {
+				prop.One(t, c)
+			}
+		}
+	}
+}
+
 // TestGlobExhaustive enumerates every (pattern, string) pair over the byte
 // alphabet {a, b, *, \} up to a length bound.
 func TestGlobExhaustive(t *testing.T) {
